@@ -275,7 +275,10 @@ def case_strategy():
         return st.one_of(good, good, mixed, wild)
 
     def one(shape):
-        argv = st.tuples(argv_items(shape), st.booleans()).map(lambda t: {"shape": shape, "channel": "argv", "eoe": t[1], "input": t[0]})
+        # one case in three is followed by a plain parse through another method on the same parser object: whatever the first call did, the
+        # second (an empty object / text / environment) must again end in one of the documented ways
+        argv = st.tuples(argv_items(shape), st.booleans(), st.sampled_from([None, None, None, None, "object", "string", "env"])).map(
+            lambda t: {"shape": shape, "channel": "argv", "eoe": t[1], "input": t[0], **({"then": t[2]} if t[2] else {})})
         env = st.tuples(st.dictionaries(st.sampled_from(ENV_NAMES[shape]), value_strategy(d), max_size=3), st.booleans(), argv_items(shape)).map(
             lambda t: {"shape": shape, "channel": "env", "eoe": t[1], "input": {"env": t[0], "argv": t[2][:2]}})
         string = st.tuples(value_strategy(d), st.booleans()).map(lambda t: {"shape": shape, "channel": "string", "eoe": t[1], "input": t[0]})
@@ -356,63 +359,83 @@ def all_strings(v):
 
 
 def execute(case, d):
-    """-> (kind, detail) with kind in result / argument-error / exit / exception / timeout"""
+    """-> (kind, detail) with kind in result / argument-error / exit / exception / timeout.  When the case asks for a follow-up call
+    ("then": a plain, valid parse through another method on the *same* parser object) its outcome is left in FOLLOW[0]."""
     from jsonargparse import ArgumentError, Namespace
 
     inp = subst(case["input"], d)
     p = build(case["shape"], case["eoe"])
     ch = case["channel"]
-    out, err = io.StringIO(), io.StringIO()
     old_stdin, old_cwd, old_env = sys.stdin, os.getcwd(), dict(os.environ)
     sys.stdin = io.StringIO("")
     signal.signal(signal.SIGALRM, _alarm)
-    signal.alarm(WATCHDOG_S)
+
+    def main_call():
+        if ch == "argv":
+            return p.parse_args(list(inp))
+        elif ch == "env":
+            return p.parse_env(dict(inp["env"])) if not inp["argv"] else _with_env(p, inp)
+        elif ch == "string":
+            return p.parse_string(inp if isinstance(inp, str) else json.dumps(inp))
+        elif ch == "object":
+            return p.parse_object(dict(inp))
+        elif ch == "object-parsed":
+            obj = {}
+            for k, v in inp.items():
+                try:
+                    obj[k] = json.loads(v)
+                except Exception:  # noqa
+                    obj[k] = v
+            return p.parse_object(obj)
+        elif ch == "path":
+            return p.parse_path(inp)
+        raise HarnessError(ch)
+
+    def attempt(fn):
+        out, err = io.StringIO(), io.StringIO()
+        signal.alarm(WATCHDOG_S)
+        try:
+            with contextlib.redirect_stdout(out), contextlib.redirect_stderr(err):
+                r = fn()
+            signal.alarm(0)
+            if not isinstance(r, Namespace):
+                return "exception", ("NotANamespace", repr(type(r)), None)
+            return "result", None
+        except Timeout:
+            return "timeout", None
+        except ArgumentError as ex:
+            signal.alarm(0)
+            return "argument-error", str(ex)[:300]
+        except SystemExit as ex:
+            signal.alarm(0)
+            return "exit", (ex.code, out.getvalue(), err.getvalue())
+        except HarnessError:
+            raise
+        except BaseException as ex:  # noqa
+            signal.alarm(0)
+            return "exception", (type(ex).__name__, fmt_exc(ex), innermost_pkg_frame(ex))
+        finally:
+            signal.alarm(0)
+
+    FOLLOW[0] = None
     try:
-        with contextlib.redirect_stdout(out), contextlib.redirect_stderr(err):
-            if ch == "argv":
-                r = p.parse_args(list(inp))
-            elif ch == "env":
-                r = p.parse_env(dict(inp["env"])) if not inp["argv"] else _with_env(p, inp)
-            elif ch == "string":
-                r = p.parse_string(inp if isinstance(inp, str) else json.dumps(inp))
-            elif ch == "object":
-                r = p.parse_object(dict(inp))
-            elif ch == "object-parsed":
-                obj = {}
-                for k, v in inp.items():
-                    try:
-                        obj[k] = json.loads(v)
-                    except Exception:  # noqa
-                        obj[k] = v
-                r = p.parse_object(obj)
-            elif ch == "path":
-                r = p.parse_path(inp)
-            else:
-                raise HarnessError(ch)
-        signal.alarm(0)
-        if not isinstance(r, Namespace):
-            return "exception", ("NotANamespace", repr(type(r)), None)
-        return "result", None
-    except Timeout:
-        return "timeout", None
-    except ArgumentError as ex:
-        signal.alarm(0)
-        return "argument-error", str(ex)[:300]
-    except SystemExit as ex:
-        signal.alarm(0)
-        return "exit", (ex.code, out.getvalue(), err.getvalue())
-    except HarnessError:
-        raise
-    except BaseException as ex:  # noqa
-        signal.alarm(0)
-        return "exception", (type(ex).__name__, fmt_exc(ex), innermost_pkg_frame(ex))
+        res = attempt(main_call)
+        then = case.get("then")
+        if then and res[0] != "timeout":
+            p.default_env = False
+            os.environ.clear()
+            os.environ.update(old_env)
+            FOLLOW[0] = attempt({"object": lambda: p.parse_object({}), "string": lambda: p.parse_string("{}"), "env": lambda: p.parse_env({})}[then])
+        return res
     finally:
-        signal.alarm(0)
         sys.stdin = old_stdin
         if os.getcwd() != old_cwd:
             os.chdir(old_cwd)
         os.environ.clear()
         os.environ.update(old_env)
+
+
+FOLLOW = [None]
 
 
 def _with_env(p, inp):
@@ -474,8 +497,16 @@ def run_case(ctx, case):
             if kind2 != "timeout":
                 ctx.cls("watchdog-expiry-not-reproduced")
                 verdict = judge(case, kind2, detail2)
+        follow = FOLLOW[0]
     ctx.cls(f"channel:{case['channel']}")
     ctx.cls(f"outcome:{kind}" + (f":{detail[0]}" if kind == "exit" else ""))
+    if follow is not None and verdict is None:
+        ctx.cls(f"follow-up:{case['then']}:{follow[0]}" + (f":{follow[1][0]}" if follow[0] == "exit" else ""))
+        v2 = judge({"channel": case["then"], "eoe": case["eoe"], "input": {}}, follow[0], follow[1])
+        if v2 is not None and follow[0] == "timeout":
+            ctx.cls("follow-up watchdog expiry (inconclusive, not re-confirmed)")
+        elif v2 is not None:
+            ctx.finding(f"C03/follow-up-{case['then']}/{v2[0]}", {"first-outcome": kind, "detail": v2[1]})
     ctx.cls(f"shape:{case['shape']}")
     if verdict is not None:
         ctx.finding(f"C03/{case['channel'] if case['channel'] in ('argv', 'env', 'path') else 'config'}/{verdict[0]}", {"outcome": kind, "detail": verdict[1]})
